@@ -356,6 +356,9 @@ def _worker_init(pid):
         _ENGINE.setup_worker()
 
 
+_HISTORY = []          # run indices this worker process has executed so far (a violation may need what ran before it)
+
+
 def _work_chunk(pid, batch_seed, indices, tier, want_digests, per_run_timeout, max_violations):
     engine = _ENGINE
     out = {
@@ -377,6 +380,8 @@ def _work_chunk(pid, batch_seed, indices, tier, want_digests, per_run_timeout, m
             res, err = safe_execute(engine, trace)
         finally:
             faulthandler.cancel_dump_traceback_later()
+        history_before = list(_HISTORY)
+        _HISTORY.append(i)
         out["evaluations"] += 1
         if err:
             out["harness_errors"].append({"run": i, "error": err})
@@ -428,6 +433,10 @@ def _work_chunk(pid, batch_seed, indices, tier, want_digests, per_run_timeout, m
                 faulthandler.cancel_dump_traceback_later()
             sig = engine.signature(mt, mv)
             mt["signature"] = sig
+            # what this process had executed before: if the minimised trace alone does not fail in a fresh process, the replay
+            # re-creates this history first (state of the code under test that survives from one use to the next)
+            mt["history"] = {"batch_seed": batch_seed, "tier": tier, "indices": history_before[-400:], "original_index": i,
+                             "cls": mv.get("cls") if isinstance(mv, dict) else None}
             if sig not in known:
                 unknown_seen[cls] = True
             cur = out["violations"].get(sig)
@@ -722,6 +731,21 @@ def run_replay(pid, path, machine=False):
         return EXIT_HARNESS
     v = res.get("violation")
     sig = engine.signature(trace, v) if v else None
+    hist = trace.get("history") or {}
+    if not v and hist.get("indices") and os.environ.get("VERIF_REPLAY_NO_HISTORY") != "1":
+        # the trace alone holds: replay it the way it was found - after the runs the finding process had executed before it
+        # (this is a NEW process: the history is executed from scratch, then the original, unminimised run)
+        for i_ in hist["indices"]:
+            safe_execute(engine, make_trace(engine, hist["batch_seed"], i_, hist.get("tier", "quick")))
+        orig = make_trace(engine, hist["batch_seed"], hist["original_index"], hist.get("tier", "quick"))
+        res2, err2 = safe_execute(engine, orig)
+        v2 = (res2 or {}).get("violation") if not err2 else None
+        if v2 and (hist.get("cls") is None or v2.get("cls") == hist.get("cls")):
+            v, res = v2, res2
+            sig = trace.get("signature") or engine.signature(orig, v2)
+            print(f"[lian-sim] replay {path}: the violation needs the {len(hist['indices'])} runs the finding process executed before "
+                  f"(state of the code under test that survives from one use to the next); reproduced with that history",
+                  file=sys.stderr if machine else sys.stdout)
     if machine:
         print("REPLAY-RESULT " + json.dumps({"violation": bool(v), "signature": sig, "log": res.get("log")}))
         return EXIT_VIOLATION if v else EXIT_OK
